@@ -64,6 +64,16 @@ class SStr:
         return 'SStr(%s)' % self.label
 
 
+class SStrL1(SStr):
+    """a str all of whose code points are < 256, given by its latin-1 encoding `l1` (z3 byte sequence): the result of
+    bytes.decode('latin-1').  Equality with string constants and with other such strings is exact."""
+    __slots__ = ('l1',)
+
+    def __init__(self, l1):
+        SStr.__init__(self, '<latin-1>')
+        self.l1 = l1
+
+
 class Ref:
     __slots__ = ('oid',)
 
